@@ -656,7 +656,7 @@ bool Parser::parseLabeledStatement_AtFirst(StatementSyntax*& stmt,
             break;
 
         case SyntaxKind::Keyword_case:
-            labelStmt = makeNode<LabeledStatementSyntax>(SyntaxKind::DefaultLabelStatement);
+            labelStmt = makeNode<LabeledStatementSyntax>(SyntaxKind::CaseLabelStatement);
             stmt = labelStmt;
             labelStmt->labelTkIdx_ = consume();
             if (!(parseExpressionWithPrecedenceConditional(labelStmt->expr_)
